@@ -307,6 +307,20 @@ let () =
             if k = "missing" && h.overflowed then
               emit "MISMATCH" "out-missing-after-overflow" h.id h.stepno (Printf.sprintf "impl=%s model=%s" (pretty impl) (pretty model)))
             (split_kinds impl model);
+        (* C03: a move between watched names is Rename(old) IMMEDIATELY followed by Create(new <- old): every such adjacent
+           pair of the expected sequence must occur, adjacent, in what was delivered *)
+        (let fields s = split ':' s in
+         let rec pairs = function a :: (b :: _ as tl) -> (a, b) :: pairs tl | _ -> [] in
+         let is_move_pair (a, b) =
+           match fields a, fields b with
+           | ["E"; oldn; opa; _], ["E"; _; opb; from] ->
+             (try (int_of_string opa) land 8 <> 0 && (int_of_string opb) land 1 <> 0 && from <> "-" && from = oldn with _ -> false)
+           | _ -> false in
+         let impl_pairs = pairs impl in
+         List.iter (fun (a, b) ->
+           if is_move_pair (a, b) && not (List.mem (a, b) impl_pairs) then
+             emit "SPEC" "C03-rename-not-immediately-followed-by-create" h.id h.stepno
+               (Printf.sprintf "expected adjacent %s ; delivered %s" (pretty [a; b]) (pretty impl))) (pairs model));
         if impl = model && not h.cfg.c_recurse then
           List.iter (fun (part, r, produced, twd_before, tpath_before) ->
             let mask = int_of_n r.r_mask and cookie = int_of_n r.r_cookie in
